@@ -129,13 +129,22 @@ def check(prog, res, tier):
         return out
     re_ = ranges(runs_e, efi.short)
     dits = decoder_iterations(du, dfi)
-    lo_s, hi_s = set(), set()
+    rd = set()
+    for p in du.loads.inv:
+        for e in p.events:
+            if e.kind == 'for-iter' and e.func == dfi.short:
+                itv = e.data['iterable']
+                if isinstance(itv, RangeV):
+                    lo, hi = p.store.canon(Lin.of(itv.lo)), p.store.canon(Lin.of(itv.hi))
+                    rd.add((lo.c if lo.is_const() else str(lo), hi.c if hi.is_const() else str(hi)))
     for r in dits:
+        p = r['path']
+        fi_ev = [e for e in p.events if e.kind == 'for-iter' and e.func == dfi.short]
+        if fi_ev and isinstance(fi_ev[-1].data['iterable'], RangeV):
+            continue
         if r['bit'] is not None:
-            lo, hi = r['path'].store.bounds(r['bit'].lin)
-            lo_s.add(lo)
-            hi_s.add(hi)
-    rd = {(min(lo_s), max(hi_s) + 1)} if lo_s and None not in lo_s and None not in hi_s else set()
+            lo, hi = p.store.bounds(r['bit'].lin)
+            rd.add((lo, hi + 1 if hi is not None else None))
     ob = Ob('C01.a', 'encoder and decoder iterate the same elements 2..127', func_where(dfi), 'for bit in range(2, 128)')
     simple(ob, re_ == rd == {(2, 128)}, f'both loops range over {sorted(re_)}',
            f'encoder visits {sorted(re_)}, decoder visits {sorted(rd)} (expected elements 2..127, i.e. range(2, 128), on both sides)',
